@@ -6,6 +6,8 @@ from typing import final
 
 from mypy_extensions import mypyc_attr
 
+from pyjelly.errors import JellyConformanceError
+
 
 @mypyc_attr(allow_interpreted_subclasses=True)
 @final
@@ -32,9 +34,14 @@ class Lookup:
         self.data = OrderedDict[str, int]()
         self.max_size = max_size
         self._evicting = False
+        # keys used by the row that is being encoded (None: not tracked):
+        # they must stay resident until the row is emitted
+        self.pinned: set[str] | None = None
 
     def make_last_to_evict(self, key: str) -> None:
         self.data.move_to_end(key)
+        if self.pinned is not None:
+            self.pinned.add(key)
 
     def insert(self, key: str) -> int:
         if not self.max_size:
@@ -42,12 +49,20 @@ class Lookup:
             raise IndexError(msg)
         assert key not in self.data, f"key {key!r} already present"
         if self._evicting:
+            if self.pinned is not None and next(iter(self.data)) in self.pinned:
+                msg = (
+                    "a single statement needs more lookup entries "
+                    f"than the table holds ({self.max_size})"
+                )
+                raise JellyConformanceError(msg)
             _, index = self.data.popitem(last=False)
             self.data[key] = index
         else:
             index = len(self.data) + 1
             self.data[key] = index
             self._evicting = index == self.max_size
+        if self.pinned is not None:
+            self.pinned.add(key)
         return index
 
     def __repr__(self) -> str:
